@@ -167,7 +167,7 @@ Section AssocFacts.
   Lemma al_put_Forall (P : K * V -> Prop) (l : list (K * V)) k v :
     Forall P l -> P (k, v) -> Forall P (al_put eqb l k v).
   Proof.
-    intros H Hp. induction H as [|[k' v'] t Hx _ IH]; cbn; [now constructor|].
+    intros H Hp. induction H as [|[k' v'] t Hx Ht IH]; cbn; [now constructor|].
     destruct (eqb k' k); constructor; auto.
   Qed.
 
@@ -269,13 +269,19 @@ Lemma plain_ucols : plain ucols.
 Proof. apply plain_b_spec. vm_compute. reflexivity. Qed.
 
 Lemma user_dir_plain root u : plain u -> user_dir root u = base root ++ [ucols; u].
-Proof. intros H. unfold user_dir. apply join_plain. repeat constructor; auto using plain_ucols. Qed.
+Proof. intros H. unfold user_dir. apply join_plain. apply Forall_cons; [exact plain_ucols|]. apply Forall_cons; [exact H|]. apply Forall_nil. Qed.
 Lemma collection_dir_plain root u c : plain u -> plain c ->
   collection_dir root u c = base root ++ [ucols; u; c].
-Proof. intros H H'. unfold collection_dir. apply join_plain. repeat constructor; auto using plain_ucols. Qed.
+Proof.
+  intros H H'. unfold collection_dir. apply join_plain. apply Forall_cons; [exact plain_ucols|].
+  apply Forall_cons; [exact H|]. apply Forall_cons; [exact H'|]. apply Forall_nil.
+Qed.
 Lemma shard_dir_plain root u c s : plain u -> plain c -> plain s ->
   shard_dir root u c s = base root ++ [ucols; u; c; s].
-Proof. intros H H' H''. unfold shard_dir. apply join_plain. repeat constructor; auto using plain_ucols. Qed.
+Proof.
+  intros H H' H''. unfold shard_dir. apply join_plain. apply Forall_cons; [exact plain_ucols|].
+  apply Forall_cons; [exact H|]. apply Forall_cons; [exact H'|]. apply Forall_cons; [exact H''|]. apply Forall_nil.
+Qed.
 
 Lemma shard_dir_below_own root u c s : plain u -> plain c -> plain s ->
   strictly_below (user_dir root u) (shard_dir root u c s) = true.
@@ -341,9 +347,9 @@ Proof. unfold clean_segs. rewrite !fold_left_app. reflexivity. Qed.
 Lemma dot_alias root b : collection_dir root dot b = user_dir root b.
 Proof.
   unfold collection_dir, user_dir, join_clean. cbn [flat_map].
-  change (split_slash dot) with [dot].
-  rewrite !app_assoc. rewrite <- (app_assoc _ [dot]). cbn [app].
-  rewrite clean_drop_dot. reflexivity.
+  change (split_slash dot) with [dot]. rewrite !app_nil_r.
+  change ([dot] ++ split_slash b) with (dot :: split_slash b).
+  rewrite !app_assoc. apply clean_drop_dot.
 Qed.
 
 Lemma thm_dot_wipes root b (f : fs) :
@@ -481,7 +487,8 @@ Proof.
     destruct (db_get d (rec_key a c)); [exact Hwf|].
     destruct (maxc <=? user_count d a); [exact Hwf|]. cbn [fst].
     apply (wf_put (mkst d f)); [exact Hwf|].
-    repeat split; cbn [fst snd r_user r_col r_shards]; auto using valid_col_plain; try apply Ha.
+    unfold rec_wf. cbn [fst snd r_user r_col r_shards].
+    split; [reflexivity|]. split; [exact Ha|]. split; [exact (valid_col_plain v c Ev)|constructor].
   - exact Hwf.
   - destruct (valid_uri v c); cbn [negb]; [|exact Hwf]. destruct (get_collection d a c); exact Hwf.
   - destruct (valid_uri v c); cbn [negb]; [|exact Hwf].
@@ -491,7 +498,8 @@ Proof.
     destruct (get_collection d a c) as [r|] eqn:Eg; [|exact Hwf]. cbn [fst].
     destruct (get_wf (mkst d f) a c r Hwf Hna Eg) as (Eu & Ec & _ & Hpc & Hps).
     apply (wf_put (mkst d f)); [exact Hwf|].
-    rewrite Eu, Ec. repeat split; cbn [fst snd r_user r_col r_shards]; auto; try apply Ha; try apply Hpc.
+    rewrite Eu, Ec. unfold rec_wf. cbn [fst snd r_user r_col r_shards].
+    split; [reflexivity|]. split; [exact Ha|]. split; [exact Hpc|].
     apply Forall_app. split; [exact Hps|]. constructor; [exact Hok|constructor].
   - destruct (valid_uri v c); cbn [negb]; [|exact Hwf].
     destruct (get_collection d a c) as [r|]; [|exact Hwf].
@@ -646,23 +654,20 @@ Lemma interleaving_gen root b h : plain b ->
   of_user b (snd (run_all root h st1)) = snd (run_all root (of_user b h) st2) /\
   view_of root b (fst (run_all root h st1)) = view_of root b (fst (run_all root (of_user b h) st2)).
 Proof.
-  intros Hb Hh. induction Hh as [|[u o] h [Hu Hok] _ IH]; intros st1 st2 Hwf1 Hwf2 Hv; cbn [fst snd] in *.
+  intros Hb Hh. unfold of_user.
+  induction Hh as [|[u o] h [Hu Hok] _ IH]; intros st1 st2 Hwf1 Hwf2 Hv; cbn [fst snd] in *.
   - cbn. auto.
-  - cbn [run_all of_user filter fst snd].
+  - cbn [run_all filter fst snd].
     destruct (bytes_eqb u b) eqn:E.
     + apply bytes_eqb_eq in E. subst u. cbn [run_all fst snd].
       destruct (step_own root b o st1 st2 Hb Hwf1 Hwf2 Hok Hv) as [Ha Hv'].
       destruct (IH (fst (step root b o st1)) (fst (step root b o st2))) as [I1 I2];
         [now apply step_wf|now apply step_wf|exact Hv'|].
-      fold (@of_user op b h). rewrite bytes_eqb_refl.
-      fold (@of_user answer b (snd (run_all root h (fst (step root b o st1))))).
-      rewrite I1, Ha. auto.
+      rewrite Ha. split; [f_equal; exact I1|exact I2].
     + assert (Hn : u <> b) by now apply bytes_eqb_false.
       destruct (IH (fst (step root u o st1)) st2) as [I1 I2];
         [now apply step_wf|exact Hwf2| |].
       { rewrite step_other; auto. }
-      fold (@of_user op b h).
-      fold (@of_user answer b (snd (run_all root h (fst (step root u o st1))))).
       auto.
 Qed.
 
@@ -671,3 +676,99 @@ Lemma thm_interleaving root b h st : plain b -> wf st ->
   of_user b (snd (run_all root h st)) = snd (run_all root (of_user b h) st) /\
   view_of root b (fst (run_all root h st)) = view_of root b (fst (run_all root (of_user b h) st)).
 Proof. intros Hb Hwf Hh. now apply interleaving_gen. Qed.
+
+(* ============================================================ witnesses == *)
+(* "/r", "a", "a/b", "bob", "eve", "col", "ccc", "xyz", "s1", "s2", "s9" *)
+Definition w_root : bytes := [47;114].
+Definition w_a : bytes := [97].
+Definition w_a_b : bytes := [97;47;98].
+Definition w_bob : bytes := [98;111;98].
+Definition w_eve : bytes := [101;118;101].
+Definition w_col : bytes := [99;111;108].
+Definition w_ccc : bytes := [99;99;99].
+Definition w_xyz : bytes := [120;121;122].
+Definition w_s1 : bytes := [115;49].
+Definition w_s2 : bytes := [115;50].
+Definition w_s9 : bytes := [115;57].
+Definition w_empty : state := mkst [] [].
+
+Lemma wf_empty : wf w_empty.
+Proof. constructor. Qed.
+
+Ltac plain_by_compute := apply plain_b_spec; vm_compute; reflexivity.
+Ltac ops_ok := repeat (apply Forall_cons; [first [exact I | cbn; plain_by_compute]|]); apply Forall_nil.
+
+(* user "a/b" creates "ccc": user "a" lists it, it counts against the quota of "a" *)
+Lemma thm_slash_user_refuted :
+  exists root a b c, a <> b /\ plain b /\ ~ no_slash a /\ valid_col 2 c = true /\ wf w_empty /\
+    let st := run root a [OCreate 2 c 3] w_empty in
+    snd (step root b OList w_empty) = AList [] /\
+    snd (step root b OList st) = AList [c] /\
+    snd (step root b (OGet 2 ([98] ++ [slash] ++ c)) st) = ACol c [] /\
+    user_count (st_db st) b = 1 /\
+    snd (step root b (OCreate 2 w_xyz 1) w_empty) = ACreated /\
+    snd (step root b (OCreate 2 w_xyz 1) st) = AQuota /\
+    view_of root b st <> view_of root b w_empty.
+Proof.
+  exists w_root, w_a_b, w_a, w_ccc.
+  split; [discriminate|]. split; [plain_by_compute|].
+  split; [intros H; apply H; vm_compute; auto|].
+  split; [vm_compute; reflexivity|]. split; [exact wf_empty|].
+  cbv zeta. repeat split; try (vm_compute; reflexivity). vm_compute. discriminate.
+Qed.
+
+(* user "." : collection "bob" of user "." IS the directory of user "bob" *)
+Definition w_bob_state : state :=
+  run w_root w_bob [OCreate 2 w_col 3; OCreateShard 2 w_col w_s1; OWriteShard 2 w_col w_s1 7] w_empty.
+Definition w_dot_ops : list op := [OCreate 2 w_bob 3; OCreateShard 2 w_bob w_s9; ODelete 2 w_bob].
+
+Lemma wf_bob_state : wf w_bob_state.
+Proof.
+  apply run_wf; [plain_by_compute|exact wf_empty|].
+  ops_ok.
+Qed.
+
+Lemma thm_dot_user_refuted :
+  exists root a b ops st, no_slash a /\ a <> [] /\ plain b /\ a <> b /\ wf st /\ Forall op_ok ops /\
+    v_dirs (view_of root b st) = [([[114]; ucols; w_bob; w_col; w_s1], 7)] /\
+    v_dirs (view_of root b (run root a ops st)) = [] /\
+    snd (step root b (OReadShard 2 w_col w_s1) st) = AContent (Some 7) /\
+    snd (step root b (OReadShard 2 w_col w_s1) (run root a ops st)) = AContent None /\
+    view_of root b (run root a ops st) <> view_of root b st.
+Proof.
+  exists w_root, dot, w_bob, w_dot_ops, w_bob_state.
+  split; [intros H; vm_compute in H; intuition discriminate|].
+  split; [discriminate|]. split; [plain_by_compute|]. split; [discriminate|].
+  split; [exact wf_bob_state|].
+  split; [ops_ok|].
+  repeat split; try (vm_compute; reflexivity). vm_compute. discriminate.
+Qed.
+
+(* user ".." : its collection "userCollections" is the directory that holds every user *)
+Definition w_two_state : state :=
+  run w_root w_eve [OCreate 1 w_xyz 3; OCreateShard 1 w_xyz w_s2; OWriteShard 1 w_xyz w_s2 5] w_bob_state.
+Definition w_dotdot_ops : list op := [OCreate 1 ucols 3; OCreateShard 1 ucols w_s9; ODelete 1 ucols].
+
+Lemma wf_two_state : wf w_two_state.
+Proof.
+  apply run_wf; [plain_by_compute|exact wf_bob_state|].
+  ops_ok.
+Qed.
+
+Lemma thm_dotdot_user_refuted :
+  exists root a b b' ops st, no_slash a /\ a <> [] /\ plain b /\ plain b' /\ a <> b /\ a <> b' /\ wf st /\
+    Forall op_ok ops /\ valid_col 1 ucols = true /\
+    v_dirs (view_of root b st) = [([[114]; ucols; w_bob; w_col; w_s1], 7)] /\
+    v_dirs (view_of root b' st) = [([[114]; ucols; w_eve; w_xyz; w_s2], 5)] /\
+    v_dirs (view_of root b (run root a ops st)) = [] /\
+    v_dirs (view_of root b' (run root a ops st)) = [] /\
+    st_fs (run root a ops st) = [].
+Proof.
+  exists w_root, dotdot, w_bob, w_eve, w_dotdot_ops, w_two_state.
+  split; [intros H; vm_compute in H; intuition discriminate|].
+  split; [discriminate|]. split; [plain_by_compute|]. split; [plain_by_compute|].
+  split; [discriminate|]. split; [discriminate|].
+  split; [exact wf_two_state|].
+  split; [ops_ok|].
+  repeat split; vm_compute; reflexivity.
+Qed.
